@@ -87,20 +87,32 @@ func verifSortU32(a []uint32) { slices.Sort(a) }
 // one atomic load per acquisition.
 type verifRWMutex struct{ mu sync.RWMutex }
 
+// verifLockEventHook, when set, is told about every acquisition ('L' write, 'R' read) and release ('u', 'r') of a
+// verif mutex, so that a simulator can keep per-goroutine lock sets (recursive read locking, lock order).
+var verifLockEventHook atomic.Pointer[func(op byte, l any)]
+
+func verifLockEvent(op byte, l any) {
+	if h := verifLockEventHook.Load(); h != nil {
+		(*h)(op, l)
+	}
+}
+
 func (m *verifRWMutex) Lock() {
 	if verifYieldHook.Load() != nil {
 		verifLockPoint("Lock@"+verifCaller(), &m.mu)
 	}
 	m.mu.Lock()
+	verifLockEvent('L', m)
 }
 func (m *verifRWMutex) RLock() {
 	if verifYieldHook.Load() != nil {
 		verifRLockPoint("RLock@"+verifCaller(), &m.mu)
 	}
 	m.mu.RLock()
+	verifLockEvent('R', m)
 }
-func (m *verifRWMutex) Unlock()        { m.mu.Unlock() }
-func (m *verifRWMutex) RUnlock()       { m.mu.RUnlock() }
+func (m *verifRWMutex) Unlock()        { verifLockEvent('u', m); m.mu.Unlock() }
+func (m *verifRWMutex) RUnlock()       { verifLockEvent('r', m); m.mu.RUnlock() }
 func (m *verifRWMutex) TryLock() bool  { return m.mu.TryLock() }
 func (m *verifRWMutex) TryRLock() bool { return m.mu.TryRLock() }
 
@@ -111,8 +123,9 @@ func (m *verifMutex) Lock() {
 		verifLockPoint("Lock@"+verifCaller(), &m.mu)
 	}
 	m.mu.Lock()
+	verifLockEvent('L', m)
 }
-func (m *verifMutex) Unlock()       { m.mu.Unlock() }
+func (m *verifMutex) Unlock()       { verifLockEvent('u', m); m.mu.Unlock() }
 func (m *verifMutex) TryLock() bool { return m.mu.TryLock() }
 
 // verifCaller names the function that asked for the lock (site label of the schedule trace).
